@@ -47,6 +47,10 @@ func runAPIHistory(key uint64, upto int) (steps []apiStep, final *run.Violation,
 
 func apiCases(key uint64) []run.Case {
 	steps, final, malformed := runAPIHistory(key, -1)
+	return casesOf(steps, final, malformed, `"hk":"`+strconv.FormatUint(key, 10)+`",`)
+}
+
+func casesOf(steps []apiStep, final *run.Violation, malformed bool, hk string) []run.Case {
 	hs := &histState{}
 	cases := []run.Case{{Req: apiReset, Impl: `{"ok":null}`, Accept: func(m string) bool { return m == `{"ok":null}` }}}
 	for i, st := range steps {
@@ -65,9 +69,9 @@ func apiCases(key uint64) []run.Case {
 			}
 		}
 		cases = append(cases, run.Case{Req: st.req, Impl: st.reply, Nontrivial: st.nontrivial, Tags: tags, Viols: st.viols, Accept: hs.accept(st.reply, kind)})
-		dump := run.Case{Req: apiDumpReq + " ", Impl: st.dump, Accept: hs.accept(st.dump, "dump")}
 		// the request line carries the position so that a dump disagreement can be replayed
-		dump.Req = `{"op":"api.dump","hk":"` + strconv.FormatUint(key, 10) + `","step":` + strconv.Itoa(i+1) + `}`
+		dump := run.Case{Impl: st.dump, Accept: hs.accept(st.dump, "dump")}
+		dump.Req = `{"op":"api.dump",` + hk + `"step":` + strconv.Itoa(i+1) + `}`
 		cases = append(cases, dump)
 	}
 	if final != nil {
@@ -315,9 +319,105 @@ func apiReplay(req string) string {
 	return sb.String()
 }
 
+// apiCorpus: fixed histories around defects that were found and fixed in /repo (§10 of DESIGN)
+// and corner cases of the index rules; they run before the generated ones.
+func apiCorpus() []run.Case {
+	d := func(kv ...interface{}) bson.D {
+		out := bson.D{}
+		for i := 0; i+1 < len(kv); i += 2 {
+			out = append(out, bson.E{Key: kv[i].(string), Value: kv[i+1]})
+		}
+		return out
+	}
+	one := int32(1)
+	ins := func(doc bson.D) *apiCall { return &apiCall{M: "insertOne", DB: "d1", Coll: "c", Doc: doc} }
+	idx := func(keys bson.D, f func(*apiCall)) *apiCall {
+		c := &apiCall{M: "createIndex", DB: "d1", Coll: "c", Keys: keys}
+		if f != nil {
+			f(c)
+		}
+		return c
+	}
+	on := func(m string) *apiCall { return &apiCall{M: m, DB: "d1", Coll: "c"} }
+	hists := [][]*apiCall{
+		{ // the _id index is never dropped; duplicate _ids stay rejected
+			ins(d("_id", one)),
+			{M: "dropIndex", DB: "d1", Coll: "c", Name: "_id_"},
+			{M: "dropIndexByKey", DB: "d1", Coll: "c", Keys: d("_id", one)},
+			on("dropAllIndexes"),
+			ins(d("_id", one)), ins(d("_id", 1.0)), on("listIndexes"),
+		},
+		{ // same name / same key rules
+			idx(d("a", one), nil), idx(d("a", one), nil),
+			idx(d("b", one), func(c *apiCall) { c.HasName, c.Name = true, "a_1" }),
+			idx(d("a", one), func(c *apiCall) { c.HasName, c.Name = true, "other" }),
+			idx(d("a", one), func(c *apiCall) { c.Unique = true }),
+			idx(d("a", int32(-1)), func(c *apiCall) { c.Unique = true }),
+			on("listIndexes"),
+		},
+		{ // unique index over existing duplicates, multikey and missing-vs-null collisions
+			ins(d("_id", one, "a", bson.A{int32(1), int32(2)})), ins(d("_id", int32(2), "a", int32(2))),
+			idx(d("a", one), func(c *apiCall) { c.Unique = true }),
+			{M: "deleteOne", DB: "d1", Coll: "c", Q: d("_id", int32(2))},
+			idx(d("a", one), func(c *apiCall) { c.Unique = true }),
+			ins(d("_id", int32(3), "a", int32(2))), ins(d("_id", int32(4))), ins(d("_id", int32(5), "a", nil)),
+			{M: "updateMany", DB: "d1", Coll: "c", Q: d(), U: d("$inc", d("b", one))},
+		},
+		{ // documents whose _id is a document / binary: update and replace compare ids by value
+			ins(d("_id", d("k", one), "a", one)),
+			{M: "updateOne", DB: "d1", Coll: "c", Q: d("a", one), U: d("$set", d("b", one))},
+			{M: "replaceOne", DB: "d1", Coll: "c", Q: d("a", one), Repl: d("_id", d("k", one), "a", int32(2))},
+			{M: "replaceOne", DB: "d1", Coll: "c", Q: d("a", int32(2)), Repl: d("_id", d("k", int64(1)), "a", int32(3))},
+			ins(d("_id", primitive.Binary{Data: []byte{1}})),
+			{M: "updateOne", DB: "d1", Coll: "c", Q: d("_id", primitive.Binary{Data: []byte{1}}), U: d("$set", d("_id", primitive.Binary{Subtype: 1, Data: []byte{1}}))},
+		},
+		{ // negative skip, failing projection after a find-and-modify, listing filters on numeric fields
+			ins(d("_id", one, "a", bson.A{one})),
+			{M: "find", DB: "d1", Coll: "c", Q: d(), HasSkip: true, Skip: -1},
+			{M: "count", DB: "d1", Coll: "c", Q: d(), HasSkip: true, Skip: -1},
+			{M: "findOneAndDelete", DB: "d1", Coll: "c", Q: d(), HasProj: true, Proj: d("a", int32(2))},
+			{M: "findOneAndUpdate", DB: "d1", Coll: "c", Q: d(), U: d("$set", d("b", one)), HasProj: true, Proj: d("a", one, "b", int32(0))},
+			{M: "findOneAndReplace", DB: "d1", Coll: "c", Q: d(), Repl: d("z", one), Upsert: true, HasProj: true, Proj: d("a", d("$slice", "x"))},
+			{M: "listDatabases", Q: d("sizeOnDisk", d("$gte", int32(0)))},
+			{M: "listCollections", DB: "d1", Q: d("idIndex.v", int32(2))},
+			{M: "insertOne", DB: "a.b", Coll: "c", Doc: d("_id", one)},
+		},
+		{ // TTL: 0 seconds is 1 ns; numbers and strings never expire; arrays expire through any element
+			idx(d("t", one), func(c *apiCall) { c.HasTTL, c.TTL = true, 0 }),
+			idx(d("u", one), nil),
+			ins(d("_id", one, "t", primitive.DateTime(time.Now().UnixMilli()-7200e3))),
+			ins(d("_id", int32(2), "t", int64(5))),
+			ins(d("_id", int32(3), "t", bson.A{"x", primitive.DateTime(time.Now().UnixMilli() - 7200e3)})),
+			ins(d("_id", int32(4), "t", primitive.DateTime(time.Now().UnixMilli()+7200e3), "u", primitive.DateTime(0))),
+			{M: "expire"}, on("listIndexes"), {M: "expire"},
+		},
+	}
+	var cases []run.Case
+	for i, h := range hists {
+		env, err := openAPIEnv(nil)
+		if err != nil {
+			continue
+		}
+		m := newAPIRunner(env, `,"corpus":`+strconv.Itoa(i))
+		var steps []apiStep
+		for _, c := range h {
+			steps = append(steps, m.step(c))
+		}
+		final := m.finalProbe()
+		env.engine.Close()
+		cs := casesOf(steps, final, false, `"corpus":`+strconv.Itoa(i)+`,`)
+		for j := range cs {
+			cs[j].Tags = append(cs[j].Tags, "corpus")
+		}
+		cases = append(cases, cs...)
+	}
+	return cases
+}
+
 func init() {
 	run.Register(&run.Stream{
-		Name: "api",
+		Name:   "api",
+		Corpus: apiCorpus,
 		Rule: "histories of 1–25 driver calls over 1–2 databases × 1–2 collections on lungo.Open(MemoryStore): 35% reads, 45% writes, 10% index management, 5% drops, 5% expiry; " +
 			"arguments biased to stored _ids/field values/index names; ~10% malformed histories; every reply and the full catalog dump (documents in natural order, index definitions and members, oplog) " +
 			"after every call are compared with the stateful Lean model; monitors C02 (error/batch), C07, C08, C13 (find window), C19, C20 run on the implementation alone; " +
